@@ -84,6 +84,14 @@ def show(v, depth=0):
         return "(" + ", ".join(show(x, depth + 1) for x in v[1]) + ")"
     if k == "clo":
         return f"closure[{v[1]}]"
+    if k == "atom":
+        return show_atom(v[1])
+    if k == "natom":
+        return "!(" + show_atom(v[1]) + ")"
+    if k == "bop":
+        return f"({show(v[2], depth + 1)} {'&' if v[1] == 'BitAnd' else '|'} {show(v[3], depth + 1)})"
+    if k == "discr":
+        return f"discriminant({show(v[1], depth + 1)})"
     if k == "fn":
         return f"fn[{v[1]}]"
     return str(v)
@@ -170,7 +178,7 @@ class State:
 
 class Dex:
     def __init__(self, lookup_fn, inline=lambda name: False, effects=lambda name: False, models=None,
-                 adt_discr=None, max_paths=50000, unroll=1, max_depth=6, pure=lambda name: True):
+                 adt_discr=None, max_paths=50000, unroll=1, max_depth=6, pure=lambda name: True, ctors=None):
         """lookup_fn(name) -> fn fact (with body) or None; inline(name) decides whether a workspace callee is
         inlined; effects(name) marks calls recorded as ordered effects."""
         self.lookup_fn = lookup_fn
@@ -180,6 +188,7 @@ class Dex:
         if models:
             self.models.update(models)
         self.adt_discr = adt_discr or {}
+        self.ctors = ctors or {}
         self.max_paths = max_paths
         self.unroll = unroll
         self.max_depth = max_depth
@@ -824,6 +833,10 @@ class Dex:
                 yield from self.inline_call(target, [f] + list(args), st, depth)
                 return
         if f is not None and f[0] == "fn":
+            ctor = STD_CTORS.get(f[1]) or self.ctors.get(f[1])
+            if ctor is not None:
+                yield st, ("adt", ctor[0], ctor[1], tuple((str(i), a) for i, a in enumerate(args))), False
+                return
             target = self.lookup_fn(f[1])
             if target is not None and "body" in target and self.inline(f[1]):
                 yield from self.inline_call(target, list(args), st, depth)
@@ -842,6 +855,8 @@ class Dex:
         yield st, v, False
 
 
+STD_CTORS = {"core::option::Option::Some": ("core::option::Option", "Some"), "core::result::Result::Ok": ("core::result::Result", "Ok"),
+             "core::result::Result::Err": ("core::result::Result", "Err")}
 STATEFUL = {"next", "next_back", "pop", "pop_front", "pop_back", "next_key", "next_value", "next_element", "next_entry"}
 
 
